@@ -9,6 +9,7 @@ CONSTANTS
   MaxCap = 3
   TTLs <- QuickTTLs
   Rich = FALSE
+  Chain = FALSE
   Emit = TRUE
 INVARIANTS
   InvCapacity
